@@ -318,12 +318,14 @@ def time_of(obj):
 class Tracer:
     def __init__(self):
         self.codes = {}
+        self.src = {}
 
     def setup(self):
         from BPTK_Py.server.bptkServer import BptkServer
-        import types
+        import types, linecache
         bmod = sys.modules["BPTK_Py.bptk"]
         self.codes = {}
+        self.src = {}                                   # (code name, line number) -> source text
         for name in ("_run_step_resource", "_run_steps_resource", "_stream_steps_resource"):
             f = getattr(BptkServer, name)
             f = getattr(f, "__wrapped__", f)
@@ -333,6 +335,10 @@ class Tracer:
                     self.codes[c] = name + "." + c.co_name
         self.codes[bmod.bptk.run_step.__code__] = "bptk.run_step"
         self.codes[bmod.bptk.progress.__code__] = "bptk.progress"
+        for code, name in self.codes.items():
+            for _, _, ln in code.co_lines():
+                if ln is not None:
+                    self.src[(name, ln)] = linecache.getline(code.co_filename, ln).strip()
 
     def trace(self, frame, event, arg):
         if event == "call":
@@ -366,13 +372,15 @@ class Scn:
         return {"stop": self.stop, "kinds": self.kinds, "fail": self.fail, "gone": self.gone}
 
 
-def execute(world, scn, mode, prefix=(), switches=None):
+def execute(world, scn, mode, prefix=(), switches=None, chooser=None):
     """Run the scenario under the scheduler.  action mode: follow `prefix` (thread ids), then the default
     policy (stay on the current thread, else the lowest enabled id).  line mode: `switches` = list of
     (line-step index, thread id): at that global line step switch to that thread; otherwise stay."""
     world.reset(scn.stop)
     n = len(scn.kinds)
-    if mode == "action":
+    if chooser is not None:
+        pass
+    elif mode == "action":
         def chooser(enabled, pending, current, k):
             if k < len(prefix) and prefix[k] in enabled:
                 return prefix[k]
@@ -500,6 +508,7 @@ def reference(scn, rec):
     how_ended = {}
     stepping = {}            # tid -> inside run_step (between RS of run_step and WS)
     overlap_multi = overlap_p = False
+    stolen = None            # a request that never acquired cleared the flag while another one holds the lock
     for tid, lab, info, folded in rec["log"]:
         if folded and lab != "CL":
             continue
@@ -516,6 +525,8 @@ def reference(scn, rec):
                 out.append(("lock-check-then-act", f"request {tid} acquired through try_lock while {sorted(holders - {tid})} hold the lock"))
             holders.add(tid)
         elif lab == "CL":
+            if tid not in holders and holders and stolen is None:
+                stolen = (tid, sorted(holders), len(out))
             holders.discard(tid)
         elif lab in ("RS", "SIM", "WS"):
             others = holders - {tid}
@@ -568,7 +579,13 @@ def reference(scn, rec):
         else:
             key = "lock-leak"
         out.append((key, f"all requests have ended but the instance is still locked (last acquired by request {last}, {kinds[last] if last is not None else '?'})"))
-    prim = [k for k, _ in out if k in ("lock-check-then-act", "run-step-without-lock")]
+    if stolen is not None:
+        tid, held, at = stolen
+        why = (f"request {tid} ({kinds[tid]}) was refused but ran unlock() on its way out and cleared the lock held by "
+               f"request(s) {held}; then: ")
+        out = out[:at] + [("refusal-releases-lock", why + t) if k in ("lock-check-then-act", "run-step-without-lock") else (k, t)
+                          for k, t in out[at:]]
+    prim = [k for k, _ in out if k in ("refusal-releases-lock", "lock-check-then-act", "run-step-without-lock")]
     if prim:                       # consequences of an interleaving are reported under its cause
         out = [(prim[0] if k in ("non-consecutive", "clock-mismatch", "refused-but-stepped") else k, t) for k, t in out]
     return out
@@ -615,6 +632,418 @@ def scenarios(chk):
     return two, extra, three
 
 
+# ------------------------------------------------------------------------------------------- refusal sandwiches
+def _acquired(tid):
+    return any(t == tid and (l == "SL" or (l == "TAS" and i)) for t, l, i, f in CTL.log)
+
+
+def _released(tid):
+    return any(t == tid and l == "CL" for t, l, i, f in CTL.log)
+
+
+def _about_to_acquire(p, line):
+    if line:
+        txt = TRACER.src.get(p, "") if isinstance(p, tuple) else ""
+        return "try_lock(" in txt or ".lock()" in txt
+    return p in ("TAS", "SL")
+
+
+def sandwich_chooser(j, line=False):
+    """A = request 0, B = request 1, C = request 2.  B runs up to (not including) its attempt to acquire, A acquires
+    and performs j more actions (line mode: line steps), B runs to its end (it is refused while A holds the lock),
+    C runs to its end (it must be refused as well), then A and whoever is left run to their ends."""
+    st = {"phase": 0, "after": 0}
+
+    def chooser(enabled, pending, current, k):
+        while True:
+            ph = st["phase"]
+            if ph == 0:
+                if 1 in enabled and not _about_to_acquire(pending.get(1), line):
+                    return 1
+                st["phase"] = 1
+            elif ph == 1:
+                if 0 in enabled and (not _acquired(0) or st["after"] < j):
+                    if _acquired(0):
+                        st["after"] += 1
+                    return 0
+                st["phase"] = 2
+            elif ph == 2:
+                if 1 in enabled:
+                    return 1
+                st["phase"] = 3
+            elif ph == 3:
+                if 2 in enabled:
+                    return 2
+                st["phase"] = 4
+            else:
+                return current if current in enabled else enabled[0]
+    return chooser
+
+
+def critical_section_length(world, kind, stop, line):
+    """number of scheduling points of a request of this kind (alone) between its acquisition and its release."""
+    marks = []
+
+    def chooser(enabled, pending, current, k):
+        marks.append(_acquired(0) and not _released(0))
+        return enabled[0]
+    execute(world, Scn(stop, [kind]), "line" if line else "action", chooser=chooser)
+    return sum(1 for m in marks if m)
+
+
+SANDWICH_KINDS = (("r", 2), ("s", 0), ("p", 0))
+
+
+def sandwiches(world, rng, line, per_triple):
+    """(scn, rec) for every ordered triple of request kinds (A holder, B refused between A's acquire and release, C arriving
+    in the middle of A) and positions j inside A's critical section (all when per_triple is None, else a sample)."""
+    stop = 1
+    span = {k: critical_section_length(world, k, stop, line) for k in SANDWICH_KINDS}
+    for a in SANDWICH_KINDS:
+        for b in SANDWICH_KINDS:
+            for c in SANDWICH_KINDS:
+                js = list(range(0, span[a] + 1))
+                if per_triple is not None and len(js) > per_triple:
+                    js = sorted(rng.shuffle(js)[:per_triple])
+                for j in js:
+                    scn = Scn(stop, [a, b, c])
+                    yield scn, execute(world, scn, "line" if line else "action", chooser=sandwich_chooser(j, line)), span[a]
+
+
+# ------------------------------------------------------------------------------------------- thread programs by tracing
+class TraceDict(dict):
+    """session_state of the stub: every access to the lock flag and to the session clock is recorded."""
+    def __init__(self, src, stub):
+        dict.__init__(self, src)
+        self._stub = stub
+
+    def __getitem__(self, k):
+        if k == "lock":
+            self._stub.lock_access("R", None)
+        elif k == "step":
+            self._stub.rec("RS")
+        return dict.__getitem__(self, k)
+
+    def get(self, k, d=None):
+        if k == "lock":
+            self._stub.lock_access("R", None)
+        elif k == "step":
+            self._stub.rec("RS")
+        return dict.get(self, k, d)
+
+    def __setitem__(self, k, v):
+        if k == "lock":
+            self._stub.lock_access("W", v)
+        elif k == "step":
+            self._stub.rec("WS")
+        dict.__setitem__(self, k, v)
+
+
+class StubInstance:
+    """Recording stand-in for the bptk instance of one request.  The code that runs is the real code of class bptk
+    (`is_locked/lock/unlock/try_lock/run_step/progress` are taken from the class and bound to the stub), the state is
+    a recording dict, the guards (`threading.Lock` attributes of the real instance) are fresh ones.  An access to the
+    lock flag while a guard is held is part of one atomic test-and-set (label TAS); outside it is RL / SL / CL."""
+    def __init__(self, world, stop, locked=False, take_after_reads=None):
+        import threading as _th
+        self._b = world.bmod.bptk
+        self._guards = []
+        for k, v in vars(world.inst).items():
+            if isinstance(v, type(_th.Lock())):
+                g = _th.Lock()
+                setattr(self, k, g)
+                self._guards.append(g)
+        self.scenario_manager_factory = world.inst.scenario_manager_factory
+        self.trace = []                       # [label, (code name, line)]
+        self.folding, self.folded = False, []
+        self.cur = None
+        self.free_reads = 0
+        self.take_after_reads = take_after_reads
+        self._tas = None
+        st = {k: dict.__getitem__(world.inst.session_state, k) for k in dict.keys(world.inst.session_state)}
+        st["stoptime"] = float(stop)
+        st["lock"] = bool(locked)
+        st["settings_log"], st["results_log"] = {}, {}
+        self.session_state = TraceDict(st, self)
+
+    def __getattr__(self, name):                     # everything else: the real class's code, bound to the stub
+        import types
+        if name == "_b":
+            raise AttributeError(name)
+        a = getattr(self._b, name)
+        return types.MethodType(a, self) if isinstance(a, types.FunctionType) else a
+
+    def rec(self, label):
+        if self.folding:                      # what closing the stream does is part of the GONE action
+            self.folded.append(label)
+        else:
+            self.trace.append([label, self.cur])
+
+    def lock_access(self, rw, v):
+        guarded = any(g.locked() for g in self._guards)
+        if guarded:
+            if rw == "R":
+                self._tas = [len(self.trace)]
+                self.rec("TAS")
+            elif v and self._tas is not None:
+                self._tas = None                                 # the set half of the test-and-set
+            else:
+                self.rec("SL" if v else "CL")
+            return
+        if rw == "R":
+            self.rec("RL")
+            if not dict.__getitem__(self.session_state, "lock"):
+                self.free_reads += 1
+                if self.take_after_reads is not None and self.free_reads == self.take_after_reads:
+                    self._take = True                            # another request acquires right after this read
+        else:
+            self.rec("SL" if v else "CL")
+
+    def after_read(self):
+        if getattr(self, "_take", False):
+            self._take = False
+            dict.__setitem__(self.session_state, "lock", True)
+
+
+PROGRAM_PATHS = [
+    # name, kind, numberSteps, stop, options
+    ("runStep_complete", "p", 0, 5, {}),
+    ("runStep_error", "p", 0, 5, {"fail": 0}),
+    ("runStep_refused", "p", 0, 5, {"locked": True}),
+    ("runStep_stopReached", "p", 0, 0, {"clock": 1}),
+    ("runSteps2_complete", "r", 2, 5, {}),
+    ("runSteps0_complete", "r", 0, 5, {}),
+    ("runSteps3_stopReached", "r", 3, 1, {}),
+    ("runSteps2_error", "r", 2, 5, {"fail": 1}),
+    ("runSteps_refusedAtTest", "r", 2, 5, {"locked": True}),
+    ("runSteps_refusedAtAcquire", "r", 2, 5, {"take": 1}),
+    ("stream_complete", "s", 0, 1, {}),
+    ("stream_error", "s", 0, 2, {"fail": 1}),
+    ("stream_gone0", "s", 0, 1, {"gone": 0}),
+    ("stream_gone2", "s", 0, 1, {"gone": 2}),
+    ("stream_gone4", "s", 0, 1, {"gone": 4}),
+    ("stream_refused", "s", 0, 5, {"locked": True}),
+]
+
+
+def trace_program(world, kind, n, stop, opt):
+    """Run one handler alone, under sys.settrace, against a recording stub; returns the recorded shared accesses."""
+    world.reset(5)
+    stub = StubInstance(world, stop, locked=opt.get("locked", False), take_after_reads=opt.get("take"))
+    if "clock" in opt:
+        dict.__setitem__(stub.session_state, "step", float(opt["clock"]))
+    entry = world.app._instance_manager._instances[world.id]
+    runner = world.bmod.SdRunner
+    prev_sim = runner.run_scenario_step
+    sims = [0]
+
+    def run_scenario_step(rself, *a, **kw):
+        stub.rec("SIM")
+        k = sims[0]
+        sims[0] += 1
+        if opt.get("fail") == k:
+            raise InjectedError("injected simulation failure")
+        return prev_sim(rself, *a, **kw)
+
+    lines = set()
+
+    def local(frame, event, arg):
+        if event == "line":
+            stub.cur = (TRACER.codes[frame.f_code], frame.f_lineno)
+            lines.add(stub.cur)
+            stub.after_read()
+        elif event == "return":
+            stub.after_read()
+        return local
+
+    def tracer(frame, event, arg):
+        if event == "call" and frame.f_code in TRACER.codes:
+            return local
+        return None
+    path = {"p": "run-step", "r": "run-steps", "s": "stream-steps"}[kind]
+    name = {"p": "_run_step_resource", "r": "_run_steps_resource", "s": "_stream_steps_resource"}[kind]
+    body = {"settings": {}}
+    if kind == "r":
+        body["numberSteps"] = n
+    out = {"status": None, "chunks": 0, "exc": None}
+    real = entry["instance"]
+    entry["instance"] = stub
+    runner.run_scenario_step = run_scenario_step
+    try:
+        with world.app.test_request_context(f"/{world.id}/{path}", method="POST", json=body):
+            sys.settrace(tracer)
+            try:
+                rv = getattr(world.app, name)(instance_uuid=world.id)
+                out["status"] = rv.status_code
+                if kind == "s" and rv.status_code == 200:
+                    it = iter(rv.response)
+                    try:
+                        while True:
+                            if opt.get("gone") is not None and out["chunks"] == opt["gone"]:
+                                stub.rec("GONE")
+                                stub.folding = True
+                                break
+                            try:
+                                next(it)
+                            except StopIteration:
+                                break
+                            out["chunks"] += 1
+                            stub.rec("Y")
+                    finally:
+                        rv.close()
+            except InjectedError:
+                out["status"] = 500                              # run-step lets the error through: Flask answers 500
+            except Exception as e:                               # noqa: BLE001 — recorded, judged by the comparison
+                out["exc"] = f"{type(e).__name__}: {e}"
+            finally:
+                sys.settrace(None)
+    finally:
+        runner.run_scenario_step = prev_sim
+        entry["instance"] = real
+    out["labels"] = [l for l, w in stub.trace]
+    out["where"] = [f"{l}@{w[0]}:{w[1]}" if w else f"{l}@client" for l, w in stub.trace]
+    out["lines"] = len(lines)
+    out["locked_at_end"] = bool(dict.__getitem__(stub.session_state, "lock"))
+    return out
+
+
+def program_schedule(opt, labels):
+    """the model schedule (request = thread 0; thread 1 = the other request that holds the lock in the refusal paths)"""
+    ev = []
+    simk = 0
+    for l in labels:
+        if l == "SIM":
+            ev.append("0f" if opt.get("fail") == simk else "0g")
+            simk += 1
+        elif l == "GONE":
+            ev.append("0x")
+        else:
+            ev.append("0g")
+    if opt.get("locked"):
+        return ["1g", "1g"] + ev, True
+    if opt.get("take") is not None:
+        k = opt["take"]
+        return ev[:k] + ["1g", "1g"] + ev[k:], True
+    return ev, False
+
+
+def trace_programs(world):
+    TRACER.setup()
+    res = []
+    for name, kind, n, stop, opt in PROGRAM_PATHS:
+        o = trace_program(world, kind, n, stop, opt)
+        o.update(name=name, kind=kind, n=n, stop=stop, opt=opt)
+        res.append(o)
+    return res
+
+
+def facts_from_programs(P):
+    """the six mechanism facts read off the traced programs (cross-check of the probes)."""
+    def after(labels, mark, what):
+        return mark in labels and what in labels[labels.index(mark):]
+    f = {}
+    f["lockIsTestAndSet"] = all("TAS" in P[n]["labels"] and "SL" not in P[n]["labels"] for n in ("runSteps2_complete", "stream_complete"))
+    lp = P["runStep_complete"]["labels"]
+    f["runStepTakesLock"] = ("TAS" in lp or "SL" in lp) and "CL" in lp
+    f["streamUnlocksOnDone"] = not P["stream_complete"]["locked_at_end"]
+    f["unlockOnError"] = not P["runSteps2_error"]["locked_at_end"] and not P["stream_error"]["locked_at_end"]
+    f["unlockOnClientGone"] = not P["stream_gone2"]["locked_at_end"]
+    f["refusalKeepsLock"] = all("CL" not in P[n]["labels"] for n in
+                                ("runStep_refused", "runSteps_refusedAtTest", "runSteps_refusedAtAcquire", "stream_refused"))
+    return f
+
+
+LEAN_KIND = {"p": ".runStep", "s": ".stream"}
+
+
+def program_obligations(progs, facts):
+    """per-run obligations: the model's program for the request kind performs exactly the recorded accesses."""
+    cfgline = "cfg " + " ".join("1" if facts[k] else "0" for k in FACTS)
+    req = [cfgline]
+    meta = []
+    for o in progs:
+        sched, other = program_schedule(o["opt"], o["labels"])
+        kinds = [("r", o["n"]) if o["kind"] == "r" else (o["kind"], 0)] + ([("r", 1)] if other else [])
+        ks = ",".join(k if k != "r" else f"r{n}" for k, n in kinds)
+        if "clock" in o["opt"]:                      # the session is already past its stop time: an earlier request stepped
+            pre = ["1g"] * (2 + 3 * int(o["opt"]["clock"]) + 1)
+            kinds = kinds + [("r", int(o["opt"]["clock"]))]
+            ks = ",".join(k if k != "r" else f"r{n}" for k, n in kinds)
+            sched = pre + sched
+        full = sched + ["0g", "0g"]
+        req.append(f"run {o['stop']} {ks} {','.join(full)}")
+        meta.append((o, kinds, full))
+    replies = drive("C18", req)
+    out = []
+    for (o, kinds, full), rep in zip(meta, replies[1:]):
+        labs, ths, fin = rep.split("|")
+        labs = labs.split(",")
+        mine = [l for a, l in zip(full, labs) if a[:-1] == "0" and l not in ("NOOP", "END")]
+        done = ths.split(";")[0].split(":")[4] == "done"
+        ok = mine == o["labels"] and done and o["exc"] is None
+        lk = "[" + ", ".join(LEAN_KIND.get(k, f".runSteps {n}") for k, n in kinds) + "]"
+        ev = {"g": ".go", "f": ".fail", "x": ".gone"}
+        ls = "[" + ", ".join(f"({a[:-1]}, {ev[a[-1]]})" for a in full) + "]"
+        want = "[" + ", ".join("." + l for l in o["labels"]) + "]"
+        out.append({"name": o["name"], "ok": ok, "model": mine, "impl": o["labels"], "model_done": done,
+                    "lean": f"theorem prog_{o['name']} : progOk cfg {o['stop']} {lk} {ls} 0 {want} = {'true' if ok else 'false'} := by decide"})
+    return out
+
+
+# ------------------------------------------------------------------------------------------- session requests (informational)
+def session_race(world, which, at):
+    """`begin-session` / `end-session` arriving while a run-steps 3 (request 0) is between acquire and release; afterwards a
+    run-step (request 1) arrives, then the run-steps ends.  These two are not step-advancing requests, so the run is outside
+    the statement's quantifier; what they do to the stepping requests is recorded, never judged."""
+    st = {"done": False, "status": None}
+
+    def chooser(enabled, pending, current, k):
+        if not st["done"] and _acquired(0) and sum(1 for l in CTL.log if l[0] == 0) >= at:
+            st["done"] = True
+            if which == "begin":
+                r = world.client.post(f"/{world.id}/begin-session",
+                                      json={"scenario_managers": [SM], "scenarios": [SC], "equations": ["stock", "flow"]})
+            else:
+                r = world.client.post(f"/{world.id}/end-session")
+            st["status"] = r.status_code
+            if world.inst.session_state is not None:
+                world.inst.session_state = RecDict(world.inst.session_state)
+        if not st["done"]:
+            return 0 if 0 in enabled else enabled[0]
+        return 1 if 1 in enabled else enabled[0]
+    scn = Scn(5, [("r", 3), ("p", 0)])
+    world.reset(scn.stop)
+    try:
+        rec = execute_no_reset(world, scn, chooser)
+    except Exception as e:                                   # noqa: BLE001 — informational
+        return {"error": f"{type(e).__name__}: {e}"}
+    o0, o1 = rec["out"]
+    return {"session_request_status": st["status"], "actions": " ".join(f"{t}:{l}" for t, l, i, f in rec["log"] if not f),
+            "run-steps 3": {"status": o0["status"], "times": o0["times"], "body": o0["body"][:120]},
+            "run-step": {"status": o1["status"], "times": o1["times"], "body": o1["body"][:80]},
+            "run-step accepted while run-steps in progress": o1["status"] == 200 and not ("locked" in o1["body"])}
+
+
+def execute_no_reset(world, scn, chooser):
+    n = len(scn.kinds)
+    CTL.reset(chooser, "action")
+    out = {}
+    ths = [threading.Thread(target=world.request, args=(i, k, nn, None, out), daemon=True) for i, (k, nn) in enumerate(scn.kinds)]
+    try:
+        for i, t in enumerate(ths):
+            t.start()
+            with CTL.cv:
+                if not CTL.cv.wait_for(lambda: CTL.state.get(i) in ("parked", "done"), timeout=30):
+                    raise Deadlock(f"thread {i} did not reach its first action")
+        CTL.drive(n)
+    finally:
+        for t in ths:
+            t.join(timeout=20)
+    rec = {"log": list(CTL.log), "out": [out[i] for i in range(n)]}
+    CTL.reset(None, "off")
+    return rec
+
+
 # ------------------------------------------------------------------------------------------- probes
 def probe(world):
     """mechanism facts of the handlers, by sequential/forced runs with the recorder."""
@@ -634,30 +1063,62 @@ def probe(world):
     f["unlockOnError"] = not e1["lock"] and not e2["lock"]
     g = execute(world, Scn(2, [("s", 0)], gone={0: 2}), "action")
     f["unlockOnClientGone"] = not g["lock"]
+    # a request refused by the test-and-set while another one holds the lock must leave the lock alone
+    keeps, refusal_runs, refusal_labels = True, [], {}
+    for b in SANDWICH_KINDS:
+        scn = Scn(2, [("r", 2), b])
+        rr = execute(world, scn, "action", chooser=sandwich_chooser(1))
+        refusal_runs.append((scn, rr))
+        mine = [l[1] for l in rr["log"] if l[0] == 1]
+        refusal_labels[b[0]] = mine
+        got = any(l[0] == 1 and (l[1] == "SL" or (l[1] == "TAS" and l[2])) for l in rr["log"])
+        if not got and "CL" in mine:
+            keeps = False
+    f["refusalKeepsLock"] = keeps
+    f["_refusal_labels"] = refusal_labels
     f["_solo_labels"] = {"run-steps": lr, "stream": ls, "run-step": lp}
-    f["_runs"] = [(Scn(1, [("s", 0)]), s), (Scn(2, [("r", 2)], fail={0: 1}), e1), (Scn(2, [("s", 0)], fail={0: 1}), e2),
+    f["_runs"] = refusal_runs + [(Scn(1, [("s", 0)]), s), (Scn(2, [("r", 2)], fail={0: 1}), e1), (Scn(2, [("s", 0)], fail={0: 1}), e2),
                   (Scn(2, [("s", 0)], gone={0: 2}), g), (Scn(1, [("r", 1)]), r), (Scn(1, [("p", 0)]), p)]
     return f
 
 
-FACTS = ["lockIsTestAndSet", "runStepTakesLock", "streamUnlocksOnDone", "unlockOnError", "unlockOnClientGone"]
+FACTS = ["lockIsTestAndSet", "runStepTakesLock", "streamUnlocksOnDone", "unlockOnError", "unlockOnClientGone",
+         "refusalKeepsLock"]
 WITNESS = {"lockIsTestAndSet": "C18_witness_toctou", "runStepTakesLock": "C18_witness_run_step_unlocked",
            "streamUnlocksOnDone": "C18_witness_stream_completion", "unlockOnError": "C18_witness_error",
-           "unlockOnClientGone": "C18_witness_client_gone"}
+           "unlockOnClientGone": "C18_witness_client_gone", "refusalKeepsLock": "C18_witness_refusal_unlocks"}
+MUTEX_FACTS = ["lockIsTestAndSet", "runStepTakesLock", "refusalKeepsLock"]
+RELEASE_FACTS = ["streamUnlocksOnDone", "unlockOnError", "unlockOnClientGone"]
 
 
-def gen_lean(f):
+def gen_lean(f, progs=()):
     b = lambda x: "true" if x else "false"
     cfg = ", ".join(f"{k} := {b(f[k])}" for k in FACTS)
+    body = ""
     if all(f[k] for k in FACTS):
-        body = "theorem holds : C18_full cfg := C18_full_of_good cfg (by decide)\n#print axioms holds\n"
+        body += "theorem holds : C18_full cfg := C18_full_of_good cfg (by decide)\n#print axioms holds\n"
     else:
-        body = ""
         for k in FACTS:
             if not f[k]:
                 body += (f"theorem violated_{k} : ¬ C18_full cfg := {WITNESS[k]} cfg (by decide)\n"
                          f"#print axioms violated_{k}\n")
-        body += "#print axioms C18_partial\n"
+    # the clauses that hold on this tree whatever the other facts say (per-clause theorems)
+    if all(f[k] for k in MUTEX_FACTS):
+        body += ("theorem holds_mutex (stop : Nat) (ks : List Kind) (sched : Schedule) : ClMutex cfg (run cfg (State.init stop ks) sched) :=\n"
+                 "  C18_mutex cfg (by decide) stop ks sched\n"
+                 "theorem holds_consecutive (stop : Nat) (ks : List Kind) (sched : Schedule) : ClConsec (run cfg (State.init stop ks) sched) :=\n"
+                 "  C18_consecutive cfg (by decide) stop ks sched\n"
+                 "#print axioms holds_mutex\n#print axioms holds_consecutive\n")
+    if all(f[k] for k in RELEASE_FACTS):
+        body += ("theorem holds_release (stop : Nat) (ks : List Kind) (sched : Schedule) : ClRelease (run cfg (State.init stop ks) sched) :=\n"
+                 "  C18_release cfg (by decide) stop ks sched\n#print axioms holds_release\n")
+    body += ("theorem holds_solo (stop : Nat) (k : Kind) (sched : Schedule) :\n"
+             "    ClMutex cfg (run cfg (State.init stop [k]) sched) ∧ ClConsec (run cfg (State.init stop [k]) sched) := C18_solo cfg stop k sched\n"
+             "#print axioms holds_solo\n#print axioms C18_partial\n")
+    if progs:
+        body += "/-! thread programs: the accesses recorded from each handler run alone against the recording stub -/\n"
+        for o in progs:
+            body += o["lean"] + "\n"
     return ("import Bptk.Props.C18\n/-! GENERATED by harness/props/c18.py from /repo on every run — do not edit. -/\n"
             "namespace Bptk.C18.Gen\n" f"def cfg : Cfg := {{ {cfg} }}\n" + body + "end Bptk.C18.Gen\n")
 
@@ -678,17 +1139,26 @@ def _run(chk, world):
     facts = probe(world)
     chk.notes["cfg"] = {k: facts[k] for k in FACTS}
     chk.notes["solo_action_labels"] = facts["_solo_labels"]
-    ok, why = chk.prove(gen_lean(facts))
+    chk.notes["refused_request_labels"] = facts["_refusal_labels"]
+    # thread programs derived by tracing: each handler alone, under sys.settrace, against the recording stub
+    progs = trace_programs(world)
+    obls = program_obligations(progs, facts)
+    chk.notes["traced_programs"] = {o["name"]: " ".join(o["where"]) for o in progs}
+    chk.cov["traced_program_paths"] = len(progs)
+    chk.cov["traced_handler_lines"] = sum(o["lines"] for o in progs)
+    stub_facts = facts_from_programs({o["name"]: o for o in progs})
+    chk.notes["cfg_from_traced_programs"] = stub_facts
+    ok, why = chk.prove(gen_lean(facts, obls))
     chk.cov["trusted_base"] = [
         "Lean 4.33 kernel; axioms propext, Classical.choice, Quot.sound (audited per run via #print axioms)",
-        "hand-written thread programs of lean/Bptk/Core/C18.lean (run-step / run-steps / stream-steps handlers, bptk.run_step, lock/unlock/is_locked/try_lock) at the granularity of accesses to the lock flag, the session clock, the simulation call and the chunks handed to the client; tied to /repo by the five probed mechanism facts and by the label-by-label and outcome comparison of every forced schedule",
+        "thread programs of lean/Bptk/Core/C18.lean (run-step / run-steps / stream-steps handlers, bptk.run_step, lock/unlock/is_locked/try_lock) at the granularity of accesses to the lock flag, the session clock, the simulation call and the chunks handed to the client; tied to /repo by the six probed mechanism facts, by the per-run obligations prog_* (the accesses recorded from each handler run alone under sys.settrace against a recording stub — completion, error, client-gone, refusal and stop-time paths — equal the model's program, decided in the kernel) and by the label-by-label and outcome comparison of every forced schedule",
         "the recorder: instance-level wrappers of is_locked/lock/unlock/try_lock, a dict subclass recording session_state['step'], a wrapper of SdRunner.run_scenario_step; the cooperative scheduler (one thread runs at a time)",
         "thread switches inside one source line / inside C calls are not modelled; try_lock's guarded body is one action",
     ]
     chk.assumptions = [
         "requests reach the handlers as WSGI calls (Flask routing/werkzeug response iteration are not modelled); a client disconnect is the server closing the response iterable",
         "session dt = 1, start 0 (time = number of steps); simulation values are not compared, only times",
-        "begin-session/end-session are not step-advancing requests and are outside the statement",
+        "begin-session/end-session are not step-advancing requests and are outside the statement's quantifier (schedules of stepping requests); what a begin-session/end-session racing with a stepping request does is probed and reported in notes.session_race (informational)",
     ]
     two, extra, three = scenarios(chk)
     bound2 = 3 if chk.quick else 4
@@ -707,9 +1177,35 @@ def _run(chk, world):
                 if _t.time() > deadline:
                     break
             dist[f"{scn.kinds_str()} stop={scn.stop} fail={scn.fail} gone={scn.gone} preemptions<={bound}"] = n
+    # refusal sandwiches (action level): every ordered triple of kinds, B refused at every point of A's critical section
+    rng = chk.rng.fork("c18-lines")
+    nsand = 0
+    realised = {"action": 0, "line": 0, "action_violating": 0, "line_violating": 0}
+
+    def note_sandwich(scn, rec, mode):
+        """B (request 1) was refused between A's (request 0) acquire and release"""
+        log = rec["log"]
+        acq = next((k for k, l in enumerate(log) if l[0] == 0 and (l[1] == "SL" or (l[1] == "TAS" and l[2]))), None)
+        rel = next((k for k, l in enumerate(log) if l[0] == 0 and l[1] == "CL"), len(log))
+        lastb = max((k for k, l in enumerate(log) if l[0] == 1), default=None)
+        o = rec["out"][1]
+        if acq is not None and lastb is not None and acq < lastb < rel and o["status"] == 500 and "locked" in o["body"]:
+            realised[mode] += 1
+            if reference(scn, rec):
+                realised[mode + "_violating"] += 1
+    for scn, rec, span in sandwiches(world, rng, False, None):
+        cases.append((scn, rec, "action"))
+        note_sandwich(scn, rec, "action")
+        nsand += 1
+    dist["refusal sandwiches (action level): 27 ordered kind triples x every position in the holder's critical section"] = nsand
     # line granularity: every single switch point (thorough) / sampled (quick), plus sampled double switches
     TRACER.setup()
-    rng = chk.rng.fork("c18-lines")
+    nsl = 0
+    for scn, rec, span in sandwiches(world, rng, True, 2 if chk.quick else 12):
+        cases.append((scn, rec, "line"))
+        note_sandwich(scn, rec, "line")
+        nsl += 1
+    dist["refusal sandwiches (line level): 27 ordered kind triples x sampled line positions in the holder's critical section"] = nsl
     nline = 0
     line_scns = two if not chk.quick else [two[i] for i in (1, 2, 4)]
     for scn in line_scns:
@@ -732,14 +1228,21 @@ def _run(chk, world):
             cases.append((scn, execute(world, scn, "line", switches=sw), "line"))
             nline += 1
         dist[f"line-level {scn.kinds_str()}: line steps of the serial run"] = total
+    chk.notes["session_race"] = {
+        "scope": "begin-session / end-session are not step-advancing requests: schedules containing them are outside C18's quantifier; informational",
+        "begin-session inside run-steps 3 (after its first step), then run-step": session_race(world, "begin", 5),
+        "end-session inside run-steps 3 (after its first step), then run-step": session_race(world, "end", 5)}
     chk.cov["input_distribution"] = dist
     chk.cov["line_level_runs"] = nline
+    chk.cov["refusal_sandwiches_realised"] = realised
     chk.cov["rule"] = (f"action mode: for every unordered pair of request kinds (run-step, run-steps 2, stream to stop time 1), "
                        f"scenarios with an injected simulation failure, with a client closing the stream after 0/2/4 chunks, with the stop time "
                        f"reached and with numberSteps 0, all schedules with <= {bound2} pre-emptions; four 3-request scenarios with <= {bound3}; "
                        "line mode (sys.settrace, park before every line of the three handlers, the stream generator and bptk.run_step): "
                        "serial run, single switch points, random double/triple switches; a case = scenario + the global order of visible actions; "
-                       "non-trivial = at least one pre-emption or injected event")
+                       "non-trivial = at least one pre-emption or injected event; refusal sandwiches: for every ordered triple (A, B, C) of request kinds, B runs up to its acquisition attempt, "
+                       "A acquires and performs j further actions (line steps), B is refused and ends, C arrives and ends, A ends — for every j in A's critical section "
+                       "at action level and for sampled j at source-line level")
     # model side
     cfgline = "cfg " + " ".join("1" if facts[k] else "0" for k in FACTS)
     req = [cfgline]
@@ -771,11 +1274,23 @@ def _run(chk, world):
     bad = [k for k in FACTS if not facts[k]]
     probe_keys = {"lockIsTestAndSet": "lock-check-then-act", "runStepTakesLock": "run-step-without-lock",
                   "streamUnlocksOnDone": "stream-completion-leaves-lock", "unlockOnError": "error-leaves-lock",
-                  "unlockOnClientGone": "client-gone-leaves-lock"}
+                  "unlockOnClientGone": "client-gone-leaves-lock", "refusalKeepsLock": "refusal-releases-lock"}
     for k in bad:
         if probe_keys[k] not in found:
             chk.add_finding(probe_keys[k], f"probe {k} = false but no schedule explored exhibits the violation",
                             {"probe": k, "solo_labels": facts["_solo_labels"]}, found_input=False)
+    badp = [o for o in obls if not o["ok"]]
+    if badp and not found:
+        o = badp[0]
+        chk.add_finding("correspondence", f"thread program {o['name']}: the accesses recorded from the handler run alone against the stub differ "
+                        f"from the model's program: model {' '.join(o['model'])}{'' if o['model_done'] else ' (not finished)'} impl {' '.join(o['impl'])}",
+                        {"program": o["name"], "model": o["model"], "impl": o["impl"], "all_differing": [x["name"] for x in badp]}, found_input=False)
+    elif badp:
+        chk.notes["program_diff_under_violation"] = [x["name"] for x in badp]
+    dis = [k for k in FACTS if stub_facts.get(k) is not None and stub_facts[k] != facts[k]]
+    if dis and not found:
+        chk.add_finding("correspondence", f"mechanism facts read off the traced programs disagree with the probes on the instrumented instance: {dis}",
+                        {"facts": {k: facts[k] for k in FACTS}, "from_traced_programs": stub_facts}, found_input=False)
     if not ok:
         chk.add_finding("obligation", f"proof obligations of C18 no longer check: {why}",
                         {"theorem": "Bptk.C18.Gen.* / Bptk.Props.C18", "detail": why}, found_input=False)
